@@ -37,6 +37,25 @@ pub fn run(ctx: &mut Ctx) {
         }
     }
     let mut cases = matcher_cases(prop, ctx, &cfg, n);
+    // capital events of several securities on one date, one of them a security never bought (its line has
+    // nothing to act on), in either line order: the others' events take effect all the same
+    {
+        use rust_decimal::Decimal;
+        let mut rr = crate::rng::Rng::new(ctx.seed ^ 0xC11B);
+        for i in 0..ctx.n(16, 600) {
+            let d0 = ledger::d(2021 + rr.below(3) as i32, 1 + rr.below(12) as u32, 1 + rr.below(28) as u32);
+            let day = d0 + Duration::days(rr.range(10, 300));
+            let mut l: Ledger = vec![
+                GTx::new(d0, "HELD", Kind::Buy, Decimal::from(100), Decimal::from(10), Decimal::ZERO),
+                GTx::new(day, "NEVER", if rr.chance(1, 2) { Kind::CapReturn } else { Kind::Accumulation }, Decimal::from(10), Decimal::from(rr.range(1, 50)), Decimal::ZERO),
+                GTx::new(day, "HELD", Kind::CapReturn, Decimal::from(100), Decimal::from(rr.range(1, 900)), Decimal::ZERO),
+                GTx::new(day + Duration::days(rr.range(1, 90)), "HELD", Kind::Sell, Decimal::from(rr.range(1, 100)), Decimal::from(12), Decimal::ZERO),
+            ];
+            if rr.chance(1, 2) { l.swap(1, 2); }
+            if rr.chance(1, 3) { l.push(GTx::new(day, "OTHER", Kind::CapReturn, Decimal::from(5), Decimal::from(2000), Decimal::ZERO)); l.push(GTx::new(d0, "OTHER", Kind::Buy, Decimal::from(5), Decimal::from(100), Decimal::ZERO)); }
+            cases.push((format!("mixed-event-day#{i}"), l));
+        }
+    }
     // several cost events of one security on one date whose sum straddles the remaining expenditure
     {
         let mut r = Rng::new(ctx.seed ^ 0x5122);
@@ -62,7 +81,7 @@ pub fn run(ctx: &mut Ctx) {
             cases.push((format!("multicap#{i}"), l));
         }
     }
-    ctx.ev.rule = "corpus + fixtures + generated ledgers with CAPRETURN/ACCUMULATION/DIVIDEND at any position, plus ledgers with 2–3 capital returns (and sometimes an accumulation) of one security on one date whose sum straddles the remaining expenditure. Oracles on the real matcher: (a) removing every DIVIDEND line changes no leg and no holding; (b) inserting an ACCUMULATION and a CAPRETURN of equal net amount on one date (in either line order) changes nothing and is not refused; (c) inserting one ACCUMULATION of v on a date where shares are held (position rescaled by earlier splits) raises Σ legs' cost + closing cost of that security by exactly v and leaves other securities alone; a CAPRETURN lowers it by exactly its net amount or is refused with a message citing S122; (d) no leg or holding has negative allowable cost — except inside known-finding class negativeLot (D6), decided by the Lean model of the pre-pass. Correspondence: accept/refuse and costs vs the model. Non-trivial = ledgers with an effective cost event; distinct by ledger text.".into();
+    ctx.ev.rule = "corpus + fixtures + generated ledgers with CAPRETURN/ACCUMULATION/DIVIDEND at any position, plus ledgers with 2–3 capital returns (and sometimes an accumulation) of one security on one date whose sum straddles the remaining expenditure. Plus days on which several securities have capital events, one of them never bought, in either line order. Oracles on the real matcher: (a) removing every DIVIDEND line changes no leg and no holding; (b) inserting an ACCUMULATION and a CAPRETURN of equal net amount on one date (in either line order) changes nothing and is not refused; (c) inserting one ACCUMULATION of v on a date where shares are held (position rescaled by earlier splits) raises Σ legs' cost + closing cost of that security by exactly v and leaves other securities alone; a CAPRETURN lowers it by exactly its net amount or is refused with a message citing S122; (d) no leg or holding has negative allowable cost — except inside known-finding class negativeLot (D6), decided by the Lean model of the pre-pass. Correspondence: accept/refuse and costs vs the model. Non-trivial = ledgers with an effective cost event; distinct by ledger text.".into();
     let mut r = Rng::new(ctx.seed ^ 0xC11);
     let mut cli_left: u32 = if ctx.tier == Tier::Quick { 8 } else { 80 };
     for (name, l) in cases {
@@ -70,6 +89,23 @@ pub fn run(ctx: &mut Ctx) {
         if !well_formed(&l) || l.is_empty() { continue; }
         ctx.ev.evaluations += 1;
         let base = run_impl::impl_match(&l);
+        if name.starts_with("mixed-event-day") {
+            // HELD: 100 shares costing 1000; its capital return of v must lower that to 1000 − v, or be refused when v > 1000
+            let v = l.iter().find(|t| t.ticker == "HELD" && t.kind == Kind::CapReturn).map(|t| Q::from_dec(t.b)).unwrap_or_else(Q::zero);
+            let thousand = Q::int(1000);
+            match &base {
+                Ok(out) => {
+                    let have = total_cost(out, "HELD");
+                    let want = thousand.sub(&v);
+                    if !have.close(&want, 12) {
+                        let what = format!("HELD cost 1000 and received a capital return of {}: legs' cost + closing cost is {} instead of {}", v.approx(), have.approx(), want.approx());
+                        ctx.ev.violation("oracle", what.clone(), replay_text(prop, "oracle: several securities' capital events on one date", &what, &l, &[format!("case {name}")]));
+                    }
+                }
+                Err(e) if e.kind == "capReturnExceedsCost" => {}
+                Err(_) => {}
+            }
+        }
         match &base {
             Ok(_) => ctx.ev.count("accepted"),
             Err(e) => {
